@@ -236,7 +236,7 @@ class Scheduler:
             for s in self.sems:
                 s.release()
         for t in threads:
-            t.join(timeout=5)
+            t.join(timeout=120)
         alive = [t for t in threads if t.is_alive()]
         _CURRENT = None
         if alive:
